@@ -32,6 +32,7 @@ func init() {
 			{ID: "C05.R13", Floor: 20, Run: flagArgsNotComputed, Text: "option flags are not computed from values: at every call of an internal function with an (ID, bool) parameter pair the bool argument is a constant, a forwarded bool parameter, a stored flag or a presence test of a variadic argument - never derived from the value (the zero ID / zero entity are valid values)"},
 			{ID: "C05.R14", Floor: 2, Run: relationGuardCallee, Text: "'the table has a relation component' is Mask.ContainsAny(IsRelation) wherever a mask is tested against the set of relation types"},
 			{ID: "C05.R15", Floor: 4, Run: variadicTargetForwarded, Text: "a given target is forwarded: in a method with a variadic Entity parameter, nothing reachable from the `len(target) > 0` edge calls an internal creator with its has-target flag constant false"},
+			{ID: "C05.R16", Floor: 10, Run: c16r4, Text: "relation test by type identity (= C16.R4): a component is a relation exactly when its first field is the embedded marker type; a name-only test makes foreign types relations and then legal operations panic"},
 		},
 	})
 }
